@@ -97,7 +97,7 @@ func checks() map[string]*Check {
 		"domain: seed-determined consistent worlds (leader logs over terms 1-3, <= 7 entries, announced commit points respecting leader completeness); requests drawn from the senders' logs (any prev, any prefix of the suffix, leaderCommit <= what that leader announced), duplicates, stale terms, optional compacted prefix via a real InstallSnapshot, optional crash+restart between any two requests",
 	}
 	m["C06"].Runs = append(m["C06"].Runs, RunSpec{Scen: "puppet.ae", Params: "cases=60", Quick: 16, Thorough: 400}, RunSpec{Scen: "puppet.ae", Params: "cases=60,snapthr=2", Quick: 16, Thorough: 400})
-	m["C06"].Runs = append(m["C06"].Runs, RunSpec{Scen: "puppet.iswindow", Params: "cases=4", Quick: 4, Thorough: 100})
+	m["C06"].Runs = append(m["C06"].Runs, RunSpec{Scen: "puppet.iswindow", Params: "cases=4", Quick: 4, Thorough: 100}, RunSpec{Scen: "puppet.iswindow", Params: "cases=4,snapthr=2,snapus=80000,applyus=0", Quick: 2, Thorough: 50})
 	m["C06"].NT = func(r *Result) bool {
 		if r.Scen == "puppet.ae" {
 			return cnt(r, "c06.commit_bound_checks") > 0
@@ -107,7 +107,7 @@ func checks() map[string]*Check {
 		}
 		return cnt(r, "c06.ae_success") > 0 && cnt(r, "c06.conflict_truncations") > 0
 	}
-	m["C06"].Rule += "; puppet runs: each run = 60 request sequences against a fresh real node, non-trivial when the exact commit-bound clause was evaluated; puppet.iswindow: each run = 4 directed cases in which the final chunk of a snapshot whose label lies inside the follower's stale tail arrives while an earlier entry is being applied (Apply takes 60 ms), the leader retransmits the chunk and continues with AppendEntries right after the label (non-trivial when such a request was answered while the installation was still waiting)"
+	m["C06"].Rule += "; puppet runs: each run = 60 request sequences against a fresh real node, non-trivial when the exact commit-bound clause was evaluated; puppet.iswindow: each run = 4 directed cases in which the final chunk of a snapshot whose label lies inside the follower's stale tail arrives while an earlier entry is being applied (Apply takes 60 ms), the leader retransmits the chunk and continues with AppendEntries right after the label (non-trivial when such a request was answered while the installation was still waiting); variant snapthr=2,snapus=80000: the installation waits for a local snapshot (Snapshot takes 80 ms) instead, after which the apply loop and the installation compete"
 	m["C06"].Assume = append(m["C06"].Assume, puppetAssume...)
 	m["C04"].Runs = append(m["C04"].Runs, RunSpec{Scen: "w2.stalereply", Quick: 12, Thorough: 300})
 	m["C01"].Runs = append(m["C01"].Runs, RunSpec{Scen: "w2.stalereply", Quick: 8, Thorough: 200})
@@ -134,13 +134,14 @@ func checks() map[string]*Check {
 			{Scen: "w1", Params: "snapshots=1,crash=1", Quick: 64, Thorough: 1600},
 			{Scen: "w1", Params: "snapshots=1,crash=0,voters=3,clients=6", Quick: 32, Thorough: 800},
 			{Scen: "w1", Params: "snapshots=1,crash=1,voters=1", Quick: 8, Thorough: 200},
+			{Scen: "puppet.iswindow", Params: "cases=4,snapthr=2,snapus=80000,applyus=0", Quick: 2, Thorough: 50},
 		},
 		NT:     func(r *Result) bool { return cnt(r, "c10.local_snapshots") > 0 && cnt(r, "fsm.apply") > 0 },
-		Rule:   "W1 schedules with snapshots on (threshold 4-30 entries, payload padding 0 B .. 3.5 chunks, four state-machine delay profiles drawn from the seed); every locally taken snapshot is decoded at Close and compared with the canonical history at its label; every Apply is followed by a comparison of the replica state with the canonical state; every Restore is compared with a completed snapshot. Non-trivial: snapshots were taken while operations were applied",
+		Rule:   "W1 schedules with snapshots on (threshold 4-30 entries, payload padding 0 B .. 3.5 chunks, four state-machine delay profiles drawn from the seed); every locally taken snapshot is decoded at Close and compared with the canonical history at its label; every Apply is followed by a comparison of the replica state with the canonical state; every Restore is compared with a completed snapshot. Non-trivial: snapshots were taken while operations were applied. puppet.iswindow (snapshot variant, see C06): a request accepted while an installation waits for a local snapshot would let the apply loop apply stale entries below the label",
 		Assume: clusterAssume})
 	m["C11"].Runs = append(m["C11"].Runs, RunSpec{Scen: "w1", Params: "snapshots=1,crash=1", Quick: 48, Thorough: 1200}, RunSpec{Scen: "w2.installcrash", Params: "snapshots=1", Quick: 32, Thorough: 800})
 	m["C11"].Runs = append(m["C11"].Runs, RunSpec{Scen: "puppet.ae", Params: "cases=60,snapthr=2", Quick: 16, Thorough: 400})
-	m["C11"].Runs = append(m["C11"].Runs, RunSpec{Scen: "puppet.iswindow", Params: "cases=4", Quick: 4, Thorough: 100})
+	m["C11"].Runs = append(m["C11"].Runs, RunSpec{Scen: "puppet.iswindow", Params: "cases=4", Quick: 4, Thorough: 100}, RunSpec{Scen: "puppet.iswindow", Params: "cases=4,snapthr=2,snapus=80000,applyus=0", Quick: 2, Thorough: 50})
 	m["C11"].NT = func(r *Result) bool {
 		if r.Scen == "puppet.iswindow" {
 			return cnt(r, "iswindow.ae_during_wait") > 0 && cnt(r, "log.discard") > 0
